@@ -65,8 +65,31 @@ def s1(ctx, rep):
             sq[0] if sq else None, "")
 
 
-def _depends(f, target_names, sources):
-    """names in target_names whose value (transitively, flow-insensitively) depends on a source name"""
+def _component_sources(f, call, idx, _depth=0):
+    """for `a, b = helper(...)` with helper a function of the same module that returns one tuple display: the argument
+    expressions component idx of the result depends on (None: unknown callee - every argument counts)"""
+    if _depth > 2 or not isinstance(call, ast.Call) or not isinstance(call.func, ast.Name):
+        return None
+    h = f.module.functions.get(call.func.id) if hasattr(f.module, "functions") else None
+    if h is None or any(isinstance(a, ast.Starred) for a in call.args) or any(k.arg is None for k in call.keywords):
+        return None
+    rets = returns_of(h)
+    if len(rets) != 1 or not isinstance(rets[0].value, ast.Tuple) or idx >= len(rets[0].value.elts):
+        return None
+    used = {y.id for y in ast.walk(rets[0].value.elts[idx]) if isinstance(y, ast.Name)}
+    params = list(h.params)
+    out = []
+    for i, p_ in enumerate(params):
+        if _depends(h, used | ({p_} & used), [p_], _depth + 1) or p_ in used:
+            a = argn(call, i) if i < len(call.args) else kwarg(call, p_)
+            if a is not None:
+                out.append(a)
+    return out
+
+
+def _depends(f, target_names, sources, _depth=0):
+    """names in target_names whose value (transitively, flow-insensitively) depends on a source name; the components of a
+    tuple returned by a helper of the same module are tracked separately"""
     dep = {s: True for s in sources}
     changed = True
     names = {x.id for x in ast.walk(f.node) if isinstance(x, ast.Name)}
@@ -76,8 +99,12 @@ def _depends(f, target_names, sources):
             if dep.get(nm):
                 continue
             for d in local_defs(f, nm):
-                e = d[1] if isinstance(d, tuple) else d
-                if isinstance(e, ast.AST) and any(isinstance(y, ast.Name) and dep.get(y.id) for y in ast.walk(e)):
+                if isinstance(d, tuple) and d[0] == "unpack":
+                    srcs = _component_sources(f, d[1], d[2], _depth)
+                    exprs = srcs if srcs is not None else [d[1]]
+                else:
+                    exprs = [d[1] if isinstance(d, tuple) else d]
+                if any(isinstance(e, ast.AST) and any(isinstance(y, ast.Name) and dep.get(y.id) for y in ast.walk(e)) for e in exprs):
                     dep[nm] = True
                     changed = True
     return [t for t in target_names if dep.get(t)]
